@@ -29,8 +29,8 @@ func c02TWCC(kind int) *rtcp.TransportLayerCC {
 		list := make([]uint16, 7)
 		for i := 0; i < 7; i++ {
 			list[i] = uint16(vr.NondetInt(0, 3))
-			if i < count && (list[i] == rtcp.TypeTCCPacketReceivedSmallDelta || list[i] == rtcp.TypeTCCPacketReceivedLargeDelta) {
-				nrecv++
+			if list[i] == rtcp.TypeTCCPacketReceivedSmallDelta || list[i] == rtcp.TypeTCCPacketReceivedLargeDelta {
+				nrecv++ // the parser yields deltas for received padding symbols too
 			}
 		}
 		fb.PacketChunks = []rtcp.PacketStatusChunk{&rtcp.StatusVectorChunk{Type: rtcp.TypeTCCStatusVectorChunk, SymbolSize: rtcp.TypeTCCSymbolSizeTwoBit, SymbolList: list}}
